@@ -375,7 +375,7 @@ def r6_constructor_order(ctx):
     out = []
     want = {
         PH + "::new": [("new_fsopen", "subset=true"), ("new_open_tree", "AT_RECURSIVE"), ("new_unsafe_open", "")],
-        PH + "::new_unmasked": [("new_fsopen", "subset=false"), ("new_open_tree", "empty"), ("new_unsafe_open", "")],
+        PH + "::new_unmasked": [("new_fsopen", "subset=false"), ("new_open_tree", "non-recursive"), ("new_unsafe_open", "")],
     }
     for fn, seq in want.items():
         b = F.body(fn)
@@ -423,8 +423,9 @@ def r6_constructor_order(ctx):
                 v = bits.arg_value(t, 0) if bits else None
                 if v is not None and v.has(AT_RECURSIVE):
                     extra = "AT_RECURSIVE"
-                elif v is not None and v.all(lambda a: (a.s | a.c) == (1 << 64) - 1 and a.s == 0):
-                    extra = "empty"
+                elif v is not None and v.lacks(AT_RECURSIVE):
+                    # which other bits the caller spells (OPEN_TREE_CLONE is R8's business) does not matter here
+                    extra = "non-recursive"
                 else:
                     extra = repr(v)
             desc.append((nm, extra))
@@ -503,6 +504,84 @@ def r7_base_through_resolver(ctx):
     return out
 
 
+STATX_MNT_ID = 0x1000
+STATX_MNT_ID_UNIQUE = 0x4000
+STATX_BASIC = 0x7ff
+OPEN_TREE_CLONE = 1
+
+
+def r8_mount_identity_available(ctx):
+    """Every comparison of R1-R4 is vacuous when the mount id is 'unknown' on both sides (None == None), and a private
+    handle is private only if the kernel was asked for a detached clone.  (a) fetch_mnt_id answers Some(id) whenever
+    the kernel filled the field in -- with the classic STATX_MNT_ID bit alone (Linux 5.8-6.7) as well as with
+    STATX_MNT_ID_UNIQUE -- and None when it reported neither (the field is then zero for every file).
+    (b) every open_tree() carries OPEN_TREE_CLONE on all call paths: without it the result is a plain O_PATH
+    descriptor of the host's /proc, over-mounts included."""
+    F = ctx.facts
+    T = ctx.tracer
+    ipa, pp = shared(ctx)
+    out = []
+    b = F.body("utils::fd::fetch_mnt_id")
+    cfg = cfg_of(b)
+    bits = ipa.bits_of(b.path)
+    some_b, none_b = set(), set()
+    for blk in b.blocks:
+        if blk.cleanup:
+            continue
+        for st in blk.stmts:
+            if st.kind == "assign" and st.rv["k"] == "agg" and st.rv.get("adt") == "std::option::Option":
+                (some_b if st.rv.get("variant") == "Some" else none_b).add(blk.idx)
+    tests = []
+    for t in b.calls():
+        m = (t.callee or "").rsplit("::", 1)[-1]
+        if m not in ("intersects", "contains") or "StatxFlags" not in " ".join(t.argtys):
+            continue
+        k = bits.arg_value(t, 1) if bits else None
+        be = bool_edges(b, t)
+        if k is None or be is None or len(k.alts) != 1 or (k.alts[0].s | k.alts[0].c) & 0xffff != 0xffff:
+            tests.append((t, m, None, be))
+        else:
+            tests.append((t, m, k.alts[0].s & 0xffffffff, be))
+    key = "fetch_mnt_id:mask-test"
+    if len(tests) != 1 or tests[0][2] is None or not some_b or not none_b:
+        out.append(unproven("C06.R8", key, b.where(), "cannot evaluate how fetch_mnt_id decides whether the kernel reported a mount id (%d mask tests, %d Some, %d None constructions)" % (len(tests), len(some_b), len(none_b))))
+    else:
+        t, m, K, be = tests[0]
+        bad = []
+        for name, g, want_some in (("STATX_MNT_ID only (Linux 5.8-6.7)", STATX_BASIC | STATX_MNT_ID, True),
+                                   ("STATX_MNT_ID_UNIQUE only (Linux 6.8+)", STATX_BASIC | STATX_MNT_ID_UNIQUE, True),
+                                   ("both bits", STATX_BASIC | STATX_MNT_ID | STATX_MNT_ID_UNIQUE, True),
+                                   ("neither bit (pre-5.8)", STATX_BASIC, False)):
+            truth = ((g & K) != 0) if m == "intersects" else ((g & K) == K)
+            reach = cfg.edge_targets_reachable(be["true"] if truth else be["false"])
+            got_some, got_none = bool(reach & some_b), bool(reach & none_b)
+            if want_some and (not got_some or got_none):
+                bad.append("kernel reports %s -> mount id treated as unknown" % name)
+            if not want_some and got_some:
+                bad.append("kernel reports %s -> a zero field is taken for a mount id" % name)
+        if bad:
+            out.append(violated("C06.R8", key, t.where(), "%s(%#x) on the returned statx mask: %s; with the id unknown on both sides every mount comparison passes" % (m, K, "; ".join(bad))))
+        else:
+            out.append(holds("C06.R8", key, t.where(), "%s(%#x): Some(id) for MNT_ID, MNT_ID_UNIQUE or both, None for neither" % (m, K)))
+    items = []
+    for fb in F.fn_bodies():
+        if fb.file == "src/syscalls.rs":
+            continue
+        for t in fb.calls("syscalls::open_tree"):
+            items.append((fn_key(fb), "open_tree", t))
+    from .c05 import ordinal_keys
+    for k2, t in ordinal_keys(items):
+        bb = ipa.bits_of(t.body.path)
+        v = bb.arg_value(t, 2) if bb else None
+        if v is not None and v.has(OPEN_TREE_CLONE):
+            out.append(holds("C06.R8", k2 + ":clone", t.where(), "OPEN_TREE_CLONE set on every call path (must-set %#x)" % v.must_set))
+        else:
+            out.append(violated("C06.R8", k2 + ":clone", t.where(), "open_tree() can be reached without OPEN_TREE_CLONE (flags %r): the handle is then the host's /proc itself, not a private clone" % (v,)))
+    if not items:
+        out.append(violated("C06.R8", "open_tree:sites", "", "no open_tree call site found"))
+    return out
+
+
 RULES = [
     ("C06.R7", r7_base_through_resolver, 3, False),
     ("C06.R1", r1_open_verified, 3, False),
@@ -511,4 +590,5 @@ RULES = [
     ("C06.R4", r4_fail_closed, 4, False),
     ("C06.R5", r5_constructors, 7, False),
     ("C06.R6", r6_constructor_order, 2, False),
+    ("C06.R8", r8_mount_identity_available, 2, False),
 ]
